@@ -298,6 +298,106 @@ def run(ctx):
                    "thread id destructor must return exactly its own _value to its _allocator")
 
 
+    # ------------------------------------------------------------------ R6 for_each reports exactly the live runs
+    enums = fb.find(pred=lambda f: ALLOC_REC.match(f.record or "") and f.name == "for_each" and f.has_cfg())
+    ctx.floor("C14.R6", len(enums), 2, "IdAllocator::for_each instances")
+    recs = fb.records()
+    for fn in enums:
+        inst = L.short(fn)[:100]
+        ig = IG(fn, inline=lambda a, b, c: False)
+        live = ig.live_nodes()
+        active = None
+        r_ = recs.get(fn.record) or {}
+        if "ACTIVE_FLAG" in r_.get("consts", {}):
+            active = int(r_["consts"]["ACTIVE_FLAG"])
+        sweeps = [n for n in L.call_nodes(ig, name="for_each", live=live) if L.lambda_of(ig, ig.rarg(n, len(n.ev.get("args", [])) - 1)) is not None]
+        flush = [n for n in ig.ev_nodes() if n.id in live and L.is_param_invoke(n)]
+        if len(sweeps) != 1 or active is None:
+            ctx.ob("C14.R6", inst, False, fn.loc, "for_each no longer has the shape <sweep over the link array with a callback> + ACTIVE_FLAG constant")
+            continue
+        sw = sweeps[0]
+        lam = L.lambda_of(ig, ig.rarg(sw, len(sw.ev["args"]) - 1))
+        lig = IG(lam, inline=lambda a, b, c: False)
+        llive = lig.live_nodes()
+        calls = [n for n in lig.ev_nodes() if n.id in llive and n.ev["e"] == "call" and n.ev.get("name") == "operator()" and
+                 strip_cast(n.ev.get("this")).get("k") == "cap"]
+        # the marker of an open run and the running id: the two captured variables the client callback is given / the flush compares
+        ok_a = bool(calls)
+        marker = None
+        for c in calls:
+            a0 = strip_cast(c.ev["args"][0]) if c.ev.get("args") else None
+            if not (isinstance(a0, dict) and a0.get("k") == "cap"):
+                ok_a = False
+                continue
+            marker = a0.get("n")
+            resets = [n for n in lig.ev_nodes() if n.id in llive and n.ev["e"] == "asg" and strip_cast(n.ev.get("lhs")).get("k") == "cap" and
+                      strip_cast(n.ev["lhs"]).get("n") == marker]
+            # every path from the report to the next loop test / the exit closes the run
+            r1 = lig.reach([m for m, _ in c.succ], removed=resets)
+            ok_a = ok_a and bool(resets) and lig.exit.id not in r1 and c.id not in r1
+        ctx.ob("C14.R6a", inst, ok_a, lam.loc,
+               "after a run of live ids was reported the open-run marker must be closed on every path: otherwise the same run is "
+               "reported again (an id held by two reports)", site="for_each@run-closed")
+        # R6b the trailing run is flushed after the sweep with (marker, running id)
+        ok_b = False
+        for f_ in flush:
+            if ig.path_exists(sw, f_) and len(f_.ev.get("args", [])) == 2:
+                a0, a1 = strip_cast(ig.resolve(f_.ev["args"][0], f_.frame)), strip_cast(ig.resolve(f_.ev["args"][1], f_.frame))
+                ok_b = isinstance(a0, dict) and a0.get("n") == marker and isinstance(a1, dict) and a1.get("k") == "l" and a1.get("n") != marker
+        ctx.ob("C14.R6b", inst, ok_b, fn.loc,
+               "a run of live ids that is still open when the sweep ends must be reported afterwards: otherwise the highest live ids are "
+               "never enumerated", site="for_each@trailing-run")
+        # R6c run boundaries are found with the allocator's ACTIVE_FLAG
+        finds = [n for n in lig.ev_nodes() if n.id in llive and n.ev["e"] == "call" and n.ev.get("name") in ("find", "find_if", "find_if_not")]
+        ok_c = len(finds) == 2
+        kinds = set()
+        for f_ in finds:
+            last = strip_cast(lig.resolve(f_.ev["args"][-1], f_.frame)) if f_.ev.get("args") else None
+            if f_.ev["name"] == "find":
+                cv = const_val(last)
+                if cv is None and isinstance(last, dict) and last.get("k") == "g" and "::" in (last.get("n") or ""):
+                    # the constant passed by reference: evaluated from the record it is a static member of
+                    rn, cn = last["n"].rsplit("::", 1)
+                    cv = (recs.get(rn) or {}).get("consts", {}).get(cn)
+                    cv = int(cv) if cv is not None else None
+                ok_c = ok_c and cv == active
+                kinds.add("start")
+            else:
+                pl = L.lambda_of(lig, last)
+                rets = [ev for _, ev in pl.all_events() if ev["e"] == "ret"] if pl is not None else []
+                good = False
+                for rv in rets:
+                    at, pol = L.bool_atom(rv.get("v"), True)
+                    cp = L.cmp_parts(at)
+                    if cp is not None:
+                        op, l_, r__ = cp
+                        cst = const_val(r__) if const_val(r__) is not None else const_val(l_)
+                        neg = (op == "!=") == pol
+                        want_neg = f_.ev["name"] == "find_if"
+                        good = cst == active and op in ("==", "!=") and neg == want_neg
+                ok_c = ok_c and good and len(rets) == 1
+                kinds.add("end")
+        ctx.ob("C14.R6c", inst, ok_c and kinds == set(["start", "end"]), lam.loc,
+               "a live run starts at the first link equal to ACTIVE_FLAG (%s) and ends at the first link different from it: any "
+               "other constant reports freed ids as live or live ids as free" % active, site="for_each@active-flag")
+        # R6d pointer and id advance together
+        ok_d, nd = True, 0
+        for bid, b in lam.blocks.items():
+            ia = [e for e in b.get("events", []) if e["e"] == "asg" and e.get("op") == "="]
+            pi = [e for e in ia if strip_cast(e["lhs"]).get("k") == "l"]
+            vi = [e for e in ia if strip_cast(e["lhs"]).get("k") == "cap" and strip_cast(e["lhs"]).get("n") != marker]
+            if len(pi) == 1 and len(vi) == 1:
+                nd += 1
+                fr = lig.frames[0]
+                lp = L.linear(lig, pi[0]["rhs"], fr)
+                lv = L.linear(lig, vi[0]["rhs"], fr)
+                # both are <found position> + c with the same c
+                ok_d = ok_d and lp[1] == lv[1] and len(lp[0]) == 1 and len(lv[0]) >= 1
+        ctx.ob("C14.R6d", inst, ok_d and nd >= 4, lam.loc,
+               "the scan pointer and the running id must advance by the same amount in every branch (found: skip the boundary "
+               "element in both; not found: neither)", site="for_each@advance")
+
+
 def L_deep_field(desc, name):
     for d in walk(desc):
         if d.get("k") == "f" and d.get("n") == name:
